@@ -3,6 +3,7 @@ import Casket.Model.ExecSetup
 import Casket.Proofs.ExecSetup
 import Casket.Generated.SetupBounds
 import Casket.Proofs.HtCacheLock
+import Casket.Proofs.UpstreamAddr
 /-
 C11 — Every directive's setup is total: error or success, never a crash.   (partial, see docs/C11.md)
 
@@ -18,6 +19,9 @@ What is PROVED here, for all token lists and all call sequences:
     every call of `GetHtpasswdMatcher` returns with the mutex free, so no history of loads and file changes ever
     blocks, and a history gets the answers fresh processes would give (model `Casket.HtCacheLock`, tied to the real
     function by the stream c11.htcache).
+  * proxy's `parseUpstream`, which cuts an upstream address with three slices whose bounds it computes from the
+    positions of the last ':' and the next '/': all three are in range for every address (model
+    `Casket.UpstreamAddr`, tied to the real function by the stream c11.upstream).
 What is only SEARCHED (streams c11.setup and c11.reload, real code in a worker process, recover + watchdog): everything
 else a setup body does.
 -/
@@ -245,5 +249,47 @@ example :
     run [.write 0 (.users [1]), .get 0 1, .get 0 2, .write 0 (.users [1, 2]), .get 0 2, .remove 0, .get 0 1,
          .mkdir 0, .get 0 1, .write 0 .malformed, .get 0 1, .write 0 (.users [1]), .touch 0, .get 0 1] init
       = [.ok, .enouser, .ok, .eopen, .eparse, .eparse, .ok] := by decide
+
+/-! ### proxy: `parseUpstream` cuts every upstream address with slices that are in range -/
+
+open Casket.UpstreamAddr in
+/-- For every upstream address: with `colonIdx` the position of its last colon, `u[:colonIdx]`, `u[portsEnd:]` and
+`u[len(us)+1 : portsEnd]` are all in range (`cut` returns the three pieces) — wherever the colon sits: in the authority,
+in the path, first or last byte. -/
+theorem C11_parseUpstream_slices_in_bounds (u : Casket.UpstreamAddr.Bytes) (i : Nat) (h : lastIdx colon u = some i) :
+    ∃ us ports ue, cut u i = some (us, ports, ue) := by
+  have := cut_isSome u i h
+  cases hc : cut u i with
+  | none => rw [hc] at this; simp at this
+  | some r => exact ⟨r.1, r.2.1, r.2.2, rfl⟩
+
+open Casket.UpstreamAddr in
+/-- so the step returns — hosts or an error — for every address -/
+theorem C11_parseUpstream_never_panics (u : Casket.UpstreamAddr.Bytes) : parseUpstream u ≠ .panic := parseUpstream_ne_panic u
+
+open Casket.UpstreamAddr in
+/-- the judge of `c11.upstream` accepts the model's answer for every address -/
+theorem C11_upstream_model_verdict_ok (u : Casket.UpstreamAddr.Bytes) : verdict (parseUpstream u) = "ok" := by
+  have := parseUpstream_ne_panic u
+  cases h : parseUpstream u with
+  | panic => exact absurd h this
+  | hosts _ => rfl
+  | err => rfl
+
+open Casket.UpstreamAddr in
+/-- what the bound `colonIdx + 1 ≤ portsEnd` rules out: a path start that is looked for from the front of the address
+(the first '/' after the host) lies BEFORE a colon in the path — `localhost/a:b`: colon at 11, slash at 9 — and the slice
+`u[len(us)+1 : portsEnd]` = `u[12:9]` has low > high: a panic whatever the address is -/
+theorem C11_parseUpstream_front_slash_witness (u : Casket.UpstreamAddr.Bytes) :
+    slice u (11 + 1) 9 = none := slice_none u 12 9 (by decide)
+
+open Casket.UpstreamAddr in
+/-- non-vacuity: `h/a:b` (a colon in the path, no range) is one host; `h:1-2/x` (a range in the authority, with a path) is
+two; `h/a:3-1` (an inverted "range" behind a path colon) is an error -/
+example : parseUpstream [104, 47, 97, 58, 98] = .hosts [[104, 47, 97, 58, 98]] := by decide
+open Casket.UpstreamAddr in
+example : parseUpstream [104, 58, 49, 45, 50, 47, 120] = .hosts [[104, 58, 49, 47, 120], [104, 58, 50, 47, 120]] := by decide
+open Casket.UpstreamAddr in
+example : parseUpstream [104, 47, 97, 58, 51, 45, 49] = .err := by decide
 
 end Casket.Props.C11
